@@ -927,8 +927,12 @@ class QueryBuilder(Selectable, Term):  # type:ignore[misc]
             self._update_table = new_table
 
         self._with = [
-            alias_query.replace_table(current_table, new_table)  # type:ignore[operator]
-            for alias_query in self._with
+            Cte(
+                cte.name,
+                cte.query.replace_table(current_table, new_table) if cte.query else None,
+                *[term.replace_table(current_table, new_table) for term in cte.terms],
+            )
+            for cte in self._with
         ]
         self._selects = [select.replace_table(current_table, new_table) for select in self._selects]
         self._columns = [column.replace_table(current_table, new_table) for column in self._columns]
@@ -954,6 +958,33 @@ class QueryBuilder(Selectable, Term):  # type:ignore[misc]
             for orderby in self._orderbys
         ]
         self._joins = [join.replace_table(current_table, new_table) for join in self._joins]
+        self._updates = [
+            (field.replace_table(current_table, new_table), value.replace_table(current_table, new_table))
+            for field, value in self._updates
+        ]
+        self._limit = self._limit.replace_table(current_table, new_table) if self._limit else None
+        self._offset = self._offset.replace_table(current_table, new_table) if self._offset else None
+        self._on_conflict_fields = [
+            f.replace_table(current_table, new_table) if f is not None else None
+            for f in self._on_conflict_fields
+        ]
+        self._on_conflict_do_updates = [
+            (
+                f.replace_table(current_table, new_table) if f is not None else None,
+                v.replace_table(current_table, new_table) if v is not None else None,
+            )
+            for f, v in self._on_conflict_do_updates
+        ]
+        self._on_conflict_wheres = (
+            self._on_conflict_wheres.replace_table(current_table, new_table)
+            if self._on_conflict_wheres
+            else None
+        )
+        self._on_conflict_do_update_wheres = (
+            self._on_conflict_do_update_wheres.replace_table(current_table, new_table)
+            if self._on_conflict_do_update_wheres
+            else None
+        )
 
         if current_table in self._select_star_tables:
             self._select_star_tables.remove(current_table)
@@ -1861,7 +1892,10 @@ class Join:
         :return:
             A copy of the join with the tables replaced.
         """
-        self.item = self.item.replace_table(current_table, new_table)
+        if self.item == current_table:
+            self.item = new_table  # type:ignore[assignment]
+        elif isinstance(self.item, Term):
+            self.item = self.item.replace_table(current_table, new_table)
 
 
 class JoinOn(Join):
